@@ -6,6 +6,8 @@ file read the source with the same patterns).  Extracted:
     `if seen_connections.insert(conn_id)` (one delivery per connection) ?
   * `pattern_matches` (src/pubsub.rs): the arms of `match pattern[p_idx]` — the grammar the
     model's `gstep` transliterates (`?`, `*`, `\\` with the guard `p_idx + 1 < pattern.len()`, `_`);
+  * `handle_unsubscribe` / `handle_punsubscribe` (src/network/server.rs): do they confirm with the
+    remaining count when the manager returned no result (client holds nothing) ?
   * `Server::cleanup_connections` (src/network/server.rs): does it still skip closing
     connections for which `pubsub.is_subscribed(id)` (a dead subscriber stays subscribed) ?
 """
@@ -14,7 +16,7 @@ import re
 
 def facts(src, strip_comments, fn_body):
     """dict(dedup: bool|None, glob_arms: list|None, keeps_dead: bool|None); None = not recognised"""
-    out = {"dedup": None, "glob_arms": None, "keeps_dead": None}
+    out = {"dedup": None, "glob_arms": None, "keeps_dead": None, "acks_when_idle": None}
     ps = strip_comments(src("pubsub.rs"))
     body = fn_body(ps, "publish")
     if body is not None and "receivers.push" in body:
@@ -41,6 +43,17 @@ def facts(src, strip_comments, fn_body):
                 i += 1
             out["glob_arms"] = arms
     sv = strip_comments(src("network/server.rs"))
+    fb = []
+    for fn in ("handle_unsubscribe", "handle_punsubscribe"):
+        hb = fn_body(sv, fn)
+        if hb is None or ("pubsub.unsubscribe(" not in hb.replace(" ", "") and "pubsub.punsubscribe(" not in hb.replace(" ", "")):
+            fb.append(None)
+        else:
+            # `if results.is_empty() { … confirmations with the remaining count, nil name when none was given … }`
+            fb.append(bool(re.search(r"if\s+results\s*\.\s*is_empty\s*\(\s*\)", hb) and "null_bulk" in hb
+                           and re.search(r"get_subscription_info\s*\(", hb)))
+    if None not in fb and len(set(fb)) == 1:
+        out["acks_when_idle"] = fb[0]
     cb = fn_body(sv, "cleanup_connections")
     if cb is not None and "is_closing" in cb:
         out["keeps_dead"] = bool(re.search(r"pubsub\s*\.\s*is_subscribed\s*\(", cb))
@@ -71,5 +84,11 @@ def generate(src, strip_comments, fn_body, header):
         lines.append("/-- `Server::cleanup_connections` skips closing connections that hold subscriptions (true):")
         lines.append("    a subscriber that went away stays subscribed until writes to it fail. -/")
         lines.append("def pubsubKeepsDeadSubscribers : Bool := %s" % ("true" if f["keeps_dead"] else "false"))
+    if f["acks_when_idle"] is None:
+        lines.append('def pubsubAcksWhenIdle : Bool := extraction_failed "handle_unsubscribe / handle_punsubscribe not recognised or not uniform (src/network/server.rs)"')
+    else:
+        lines.append("/-- `handle_unsubscribe` / `handle_punsubscribe` write confirmations themselves when the manager returned")
+        lines.append("    no result (`if results.is_empty()`: one per name given or one with a nil name, with the remaining count). -/")
+        lines.append("def pubsubAcksWhenIdle : Bool := %s" % ("true" if f["acks_when_idle"] else "false"))
     lines += ["", "end Ferrous.Gen", ""]
     return "\n".join(lines)
